@@ -21,6 +21,7 @@ import Poulpy.Lemmas.CswapTotal
 import Poulpy.Lemmas.HeadRoom
 import Poulpy.Lemmas.ExpandTotal
 import Poulpy.Lemmas.EpConvert
+import Poulpy.Lemmas.CmuxSelect
 import Poulpy.Lemmas.MulNorm
 
 /-!
@@ -1613,5 +1614,128 @@ example (m2 : Ks.R 1) : ∃ cells, matExternalProduct true 1 4 4 2 1 2 [[[[1], [
           omega
         subst this; rfl)
   exact ⟨cells, h1, h2, (h3 2 (by decide)).2 (by decide), (h3 3 (by decide)).2 (by decide)⟩
+
+/-! ## CMux on its inputs: the result decrypts to `t` or `f` by the GGSW bit, plus explicit noise -/
+
+/-- **`cmux_selects_with_noise`** — `Cmux::cmux(res, t, f, s)` stated on the INPUTS `(t, f, bit)` only, every shape (`dsize ≥ 1`, rank, limb
+counts with `rs ≤ min(size, dnum·dsize)`), both accumulator widths.  If the GGSW encrypts the bit (`hkey` with `m2 = bit`, explicit key error `E`),
+the call returns a well-formed ciphertext and
+`2^(b·S)·phase(res) = 2^(b·S)·phase(if bit then t else f) + 2^(b·rs)·epErr + En + 2^(b·rs+b·S)·Q`:
+the selected input, plus the gadget error of the difference (`epErr = Σ_i(Σ_r digit·E − dropped − β^S·head)` on `d = t − f`), plus the final
+rounding `‖En‖_∞ ≤ (1+Σ‖s_i‖₁)·normTol`.  The difference is the executed `glwe_sub`, exact under head-room (`Core.glweSub_exact`, the column form of
+`C02.sub_phase`: `phase(d) = phase(t) − phase(f)`); the accumulator head-room is derived from the digit bound `Hin` (`ep_headroom`, one decidable
+`Core.prodAdmissible`).  This is the statement `bin-fhe`'s CMux trees cite. -/
+theorem cmux_selects_with_noise {N : Nat} (big128 : Bool) (rs : Nat) (t f : List Col) (g : EpGGSW) (res0 tmp0 : List Col) (sk : List Poly)
+    (bit : Bool) (Hin Dm : Int)
+    (hgn : g.n = N) (hgw : g.wf = true) (hts : shapeOk N (g.rank + 1) rs t = true) (hfs : shapeOk N (g.rank + 1) rs f = true)
+    (hgb1 : 1 ≤ g.base2k) (hgb : g.base2k ≤ 62)
+    (hH0 : 0 ≤ Hin) (hH : 2 * Hin < 2 ^ 62) (hDm : 0 ≤ Dm)
+    (htb : ∀ c ∈ t, ∀ l ∈ c, ∀ x ∈ l, |x| ≤ Hin) (hfb : ∀ c ∈ f, ∀ l ∈ c, ∀ x ∈ l, |x| ≤ Hin)
+    (hadm : prodAdmissible (bitsOf big128) g.dsize (g.rank + 1) g.dnum N (Hin + Hin) Dm Hin)
+    (hgd : ∀ row ∈ g.cells, ∀ c ∈ row, ∀ l ∈ c, ∀ x ∈ l, |x| ≤ Dm)
+    (σ : ℕ → Ks.R N) (E : ℕ → ℕ → Ks.R N)
+    (hd : 1 ≤ g.dsize) (hN : 0 < N) (h1rs : 1 ≤ rs)
+    (h0 : shapeOk g.n (g.rank + 1) g.size res0 = true) (ht : shapeOk g.n (g.rank + 1) g.size tmp0 = true)
+    (hM : ∀ j q, (g.toPMat.entry j q).length = N) (hS : g.dnum * g.dsize ≤ g.size)
+    (hkey : ∀ i, i < g.rank + 1 → ∀ r, r < g.dnum →
+      Gadget.val ((2 : Ks.R N) ^ g.base2k) g.size (Ks.keyPhase N sk g.toPMat i r)
+        = (if bit then 1 else 0) * σ i * ((2 : Ks.R N) ^ g.base2k) ^ (g.size - (r + 1) * g.dsize) + E i r)
+    (hcov1 : rs ≤ g.size) (hcov2 : rs ≤ g.dnum * g.dsize)
+    (hsk : g.rank ≤ sk.length) (hσ0 : σ 0 = 1) (hσ : ∀ i, i < g.rank → σ (i + 1) = Ks.ι N (sk.getD i [])) :
+    ∃ res, cmux big128 N g.base2k rs t f g res0 tmp0 = .ok res ∧ C02L.GWF N (Ks.mkCt g.base2k N res) ∧
+      (∀ c ∈ res, ∀ l ∈ c, ∀ x ∈ l, |x| ≤ 2 ^ g.base2k - 1) ∧
+      ∃ En Q : Poly, En.length = N ∧ Q.length = N ∧
+        normInf En ≤ (1 + C02L.snorm (min g.rank sk.length) sk) * C02.normTol (g.base2k * rs) (g.base2k * g.size) ∧
+        (2 : Ks.R N) ^ (g.base2k * g.size) * Ks.ι N (C02L.valP g.base2k N (Core.Ops.phase sk (Ks.mkCt g.base2k N res)))
+          = (2 : Ks.R N) ^ (g.base2k * g.size) * Ks.ι N (C02L.valP g.base2k N (Core.Ops.phase sk (Ks.mkCt g.base2k N (if bit then t else f))))
+            + (2 : Ks.R N) ^ (g.base2k * rs) * epErr N sk (glweSubSameRank N rs t f) g ((2 : Ks.R N) ^ g.base2k) E
+            + Ks.ι N En + (2 : Ks.R N) ^ (g.base2k * rs + g.base2k * g.size) * Ks.ι N Q := by
+  obtain ⟨htl, htw⟩ := wf_of_shapeOk N _ _ t hts
+  obtain ⟨hfl, hfw⟩ := wf_of_shapeOk N _ _ f hfs
+  have hH62 : Hin < 2 ^ 62 := by linarith
+  have h0t : 0 < t.length := by omega
+  have h0f : 0 < f.length := by omega
+  have ht0 : (t.getD 0 []).length = rs := by
+    rw [List.getD_eq_getElem?_getD, List.getElem?_eq_getElem h0t]; exact (htw _ (List.getElem_mem h0t)).1
+  have hf0 : (f.getD 0 []).length = rs := by
+    rw [List.getD_eq_getElem?_getD, List.getElem?_eq_getElem h0f]; exact (hfw _ (List.getElem_mem h0f)).1
+  have hg : (g.n == N && g.wf && g.base2k == g.base2k && shapeOk N (g.rank + 1) (t.getD 0 []).length t
+       && shapeOk N (g.rank + 1) (f.getD 0 []).length f) = true := by
+    rw [ht0, hf0]; simp [hgn, hgw, hts, hfs]
+  -- the difference
+  have hdeq := glweSub_exact N rs t f Hin hH62 (by rw [htl, hfl]) htw hfw htb hfb
+  rw [htl] at hdeq
+  have hdget : ∀ i, i < g.rank + 1 → C02L.ColWF N rs (C02L.colAdd (t.getD i []) ((f.getD i []).map polyNeg)) ∧
+      ∀ l ∈ C02L.colAdd (t.getD i []) ((f.getD i []).map polyNeg), ∀ x ∈ l, |x| ≤ Hin + Hin := by
+    intro i hi
+    have hit : i < t.length := by omega
+    have hif : i < f.length := by omega
+    have e1 : t.getD i [] = t[i] := by simp [List.getD_eq_getElem?_getD, List.getElem?_eq_getElem hit]
+    have e2 : f.getD i [] = f[i] := by simp [List.getD_eq_getElem?_getD, List.getElem?_eq_getElem hif]
+    rw [e1, e2]
+    exact ⟨C02L.colAdd_wf (htw _ (List.getElem_mem hit)) (neg_col_wf (hfw _ (List.getElem_mem hif))),
+      colAdd_bound _ _ Hin Hin (htb _ (List.getElem_mem hit)) (neg_col_bound _ Hin (hfb _ (List.getElem_mem hif)))⟩
+  have hdw : ∀ c ∈ glweSubSameRank N rs t f, C02L.ColWF N rs c := by
+    rw [hdeq]; intro c hc
+    obtain ⟨i, hi, rfl⟩ := List.mem_map.mp hc
+    exact (hdget i (List.mem_range.mp hi)).1
+  have hdb : ∀ c ∈ glweSubSameRank N rs t f, ∀ l ∈ c, ∀ x ∈ l, |x| ≤ Hin + Hin := by
+    rw [hdeq]; intro c hc
+    obtain ⟨i, hi, rfl⟩ := List.mem_map.mp hc
+    exact (hdget i (List.mem_range.mp hi)).2
+  have hdl : (glweSubSameRank N rs t f).length = g.rank + 1 := by rw [hdeq]; simp
+  have hd0 : ((glweSubSameRank N rs t f).getD 0 []).length = rs := by
+    have h0' : 0 < (glweSubSameRank N rs t f).length := by rw [hdl]; omega
+    rw [List.getD_eq_getElem?_getD, List.getElem?_eq_getElem h0']; exact (hdw _ (List.getElem_mem h0')).1
+  have haD : shapeOk g.n (g.rank + 1) ((glweSubSameRank N rs t f).getD 0 []).length (glweSubSameRank N rs t f) = true := by
+    rw [hgn, hd0]
+    unfold shapeOk
+    simp only [Bool.and_eq_true, beq_iff_eq, List.all_eq_true]
+    exact ⟨hdl, fun c hc => ⟨(hdw c hc).1, fun l hl => (hdw c hc).2 l hl⟩⟩
+  have hPb := ep_headroom N (glweSubSameRank N rs t f) g res0 tmp0 (Hin + Hin) Dm (by linarith) hDm hd hgn haD h0 ht hdb hgd
+  unfold prodAdmissible at hadm
+  obtain ⟨res, hres, hgwf, hdig, En, Q, hE, hQ, hnm, heq⟩ := cmux_decrypts big128 g.base2k rs t f g res0 tmp0 sk
+    (prodBound g.dsize (g.rank + 1) g.dnum N (Hin + Hin) Dm) Hin hg hgb1 hgb (prodBound_nonneg _ _ _ _ _ _ (by linarith) hDm) hH0 hadm hPb hfb
+    (if bit then 1 else 0) σ E hd hN hgn haD h0 ht hM hS hkey
+  refine ⟨res, hres, hgwf, hdig, En, Q, hE, hQ, hnm, ?_⟩
+  -- values
+  have hcov := ep_covered_value N hN (glweSubSameRank N rs t f) g sk σ rs hdl hdw hd hcov1 hcov2 hsk hσ0 hσ
+  have hsub := ι_valP_phase_sub N hN g.base2k rs sk g.rank t f htl hfl htw hfw
+  rw [← hdeq] at hsub
+  have hfne : f ≠ [] := by intro h; rw [h] at hfl; simp at hfl
+  have hfit := ι_valP_phase_fit N hN g.base2k rs g.size sk f hfne hfw hcov1
+  rw [hfl] at hfit
+  unfold epValue at heq
+  unfold epErr
+  rw [hcov, hsub, hfit] at heq
+  have hpow : (2 : Ks.R N) ^ (g.base2k * rs) * ((2 : Ks.R N) ^ g.base2k) ^ (g.size - rs) = (2 : Ks.R N) ^ (g.base2k * g.size) := by
+    rw [← pow_mul, ← pow_add]
+    congr 1
+    rw [← Nat.mul_add]; congr 1; omega
+  cases bit with
+  | true =>
+    simp only [if_true, one_mul] at heq ⊢
+    linear_combination heq + (Ks.ι N (C02L.valP g.base2k N (Core.Ops.phase sk (Ks.mkCt g.base2k N t)))) * hpow
+  | false =>
+    simp only [Bool.false_eq_true, if_false, zero_mul, zero_add] at heq ⊢
+    linear_combination heq + (Ks.ι N (C02L.valP g.base2k N (Core.Ops.phase sk (Ks.mkCt g.base2k N f)))) * hpow
+
+/-- `bit = 1` on the `dsize = 3` GGSW `staleG`, NTT120 accumulator, every hypothesis discharged -/
+example : ∃ res, cmux true 1 staleG.base2k 3 ([[[1], [2], [3]], [[0], [1], [0]]] : List Col) ([[[0], [0], [1]], [[0], [0], [0]]] : List Col) staleG (zeroCols 1 2 4) (zeroCols 1 2 4) = .ok res ∧
+    C02L.GWF 1 (Ks.mkCt staleG.base2k 1 res) := by
+  obtain ⟨res, h1, h2, _⟩ := cmux_selects_with_noise (N := 1) true 3 ([[[1], [2], [3]], [[0], [1], [0]]] : List Col) ([[[0], [0], [1]], [[0], [0], [0]]] : List Col) staleG (zeroCols 1 2 4) (zeroCols 1 2 4) [[1]] true 3 1
+    rfl (by decide) (by decide) (by decide) (by decide) (by decide) (by decide) (by decide) (by decide) (by decide) (by decide)
+    (by decide) (by decide)
+    (fun i => if i = 0 then 1 else Ks.ι 1 [1])
+    (fun i r => Gadget.val ((2 : Ks.R 1) ^ staleG.base2k) staleG.size (Ks.keyPhase 1 [[1]] staleG.toPMat i r)
+      - (if true then 1 else 0) * (if i = 0 then 1 else Ks.ι 1 [1]) * ((2 : Ks.R 1) ^ staleG.base2k) ^ (staleG.size - (r + 1) * staleG.dsize))
+    (by decide) (by decide) (by decide) (by decide) (by decide) (Ks.entry_length staleG.toPMat 1 rfl (by decide)) (by decide)
+    (by intro i _ r _; exact (add_sub_cancel _ _).symm)
+    (by decide) (by decide) (by decide) rfl
+    (by intro i hi; have h0 : i = 0 := by
+          have : i < 1 := hi
+          omega
+        subst h0; rfl)
+  exact ⟨res, h1, h2⟩
 
 end C04
